@@ -131,9 +131,17 @@ def build_and_audit(prop, lean_module, gen_files, fragments, frag_status, thorou
     import trcore
     res = LeanResult()
     prop_path = os.path.join(LEAN, *lean_module.split(".")) + ".lean"
+    # the pins of glue code (`*_wiring` theorems) live in a module of their own that nothing else imports
+    wiring_module = lean_module.replace(".Properties.", ".Properties.Wiring.")
+    wiring_path = os.path.join(LEAN, *wiring_module.split(".")) + ".lean"
+    if not os.path.exists(wiring_path):
+        wiring_module, wiring_path = None, None
     res.theorems = [n for _, n in theorem_index(prop_path)]
-    res.checker_cmd = (f"cd lean && lake build {lean_module} && lake env lean .lake/audit/{prop}.lean"
-                       + (f" && lake env leanchecker {lean_module}" if thorough else ""))
+    if wiring_path:
+        res.theorems += [n for _, n in theorem_index(wiring_path)]
+    build_targets = [lean_module] + ([wiring_module] if wiring_module else [])
+    res.checker_cmd = (f"cd lean && lake build {' '.join(build_targets)} && lake env lean .lake/audit/{prop}.lean"
+                       + (f" && lake env leanchecker {' '.join(build_targets)}" if thorough else ""))
     # 1. fragments that did not translate
     for fr in fragments:
         st = frag_status.get(fr)
@@ -158,12 +166,14 @@ def build_and_audit(prop, lean_module, gen_files, fragments, frag_status, thorou
     # 3. the property module
     rc, out = lake(["build", lean_module])
     res.build_ok = rc == 0
-    if rc != 0:
-        idx = theorem_index(prop_path)
+    own_files = {os.path.abspath(prop_path): theorem_index(prop_path)}
+
+    def map_errors(out, files, all_names):
         hit_any = False
         for m in ERR_RE.finditer(out):
             f, line, msg = m.group(1), int(m.group(2)), m.group(4)
-            if os.path.abspath(os.path.join(LEAN, f)) == os.path.abspath(prop_path):
+            idx = files.get(os.path.abspath(os.path.join(LEAN, f)))
+            if idx is not None:
                 name = None
                 for ln, n in idx:
                     if ln <= line:
@@ -174,15 +184,19 @@ def build_and_audit(prop, lean_module, gen_files, fragments, frag_status, thorou
             else:
                 res.notes.append(f"error outside the property file: {f}:{line}: {msg[:200]}")
         if not hit_any:
-            for t in res.theorems:
+            for t in all_names:
                 res.failed.setdefault(t, "a module this theorem depends on does not build: "
                                       + "; ".join(res.notes[-2:])[:300])
-        else:
-            # theorems after the first failing one in the same file were not checked by Lean
-            # only if elaboration aborted; Lean continues after errors, so keep them
-            pass
+    if rc != 0:
+        map_errors(out, own_files, res.theorems)
+    elif wiring_module:
+        rc_w, out_w = lake(["build", wiring_module])
+        if rc_w != 0:
+            res.build_ok = False
+            widx = theorem_index(wiring_path)
+            map_errors(out_w, {os.path.abspath(wiring_path): widx}, [n for _, n in widx])
     # 4. forbidden words
-    for path in lean_sources_for(lean_module):
+    for path in lean_sources_for(wiring_module or lean_module):
         with open(path) as f:
             src = strip_comments(f.read())
         m = FORBIDDEN.search(src)
@@ -196,6 +210,8 @@ def build_and_audit(prop, lean_module, gen_files, fragments, frag_status, thorou
         apath = os.path.join(adir, f"{prop}.lean")
         with open(apath, "w") as f:
             f.write(f"import {lean_module}\n")
+            if wiring_module:
+                f.write(f"import {wiring_module}\n")
             for t in res.theorems:
                 f.write(f"#print axioms {t}\n")
         with LakeLock():
@@ -217,7 +233,7 @@ def build_and_audit(prop, lean_module, gen_files, fragments, frag_status, thorou
                 res.failed.setdefault(t, f"depends on non-standard axioms {bad}")
         if thorough:
             with LakeLock():
-                p = subprocess.run(["lake", "env", "leanchecker", lean_module], cwd=LEAN,
+                p = subprocess.run(["lake", "env", "leanchecker"] + build_targets, cwd=LEAN,
                                    capture_output=True, text=True, timeout=3000)
             if p.returncode != 0:
                 for t in res.theorems:
